@@ -294,6 +294,10 @@ func TestC03(t *testing.T) {
 		do("valid", ty, data)
 		corrupt(g.r, data, maxPos, func(tag string, d []byte) { do(tag, ty, d) })
 	}
+	// one list of thousands of variable-size elements (offset tables of 16 KiB and more)
+	for _, d := range manyElemCases() {
+		do("many", d.ty, d.data)
+	}
 	// inputs of 2^32 bytes and more (see huge_test.go)
 	hugeCases(335, false, func(tag string, ty *Ty, h *hugeInput) {
 		out.emit(tag, "c03h", []string{ty.Sexp(), hexBytes(h.head), hx(h.pad), hexBytes(h.tail)}, c03hObs(ty, h))
